@@ -17,6 +17,14 @@ GL_ORDERS = range(0, 9)
 LOB_ORDERS = range(0, 6)
 
 
+# documented default rules of the region templates (order of the scheme class named in the template's docstring)
+DEFAULT_ORDER = {"RegionQuad": 1, "RegionQuadraticQuad": 2, "RegionBiQuadraticQuad": 2, "RegionHexahedron": 1, "RegionQuadraticHexahedron": 2,
+                 "RegionTriQuadraticHexahedron": 2, "RegionTriangle": 1, "RegionQuadraticTriangle": 2, "RegionTriangleMINI": 2, "RegionTetra": 1,
+                 "RegionQuadraticTetra": 2, "RegionTetraMINI": 2, "RegionConstantQuad": 1, "RegionConstantHexahedron": 1, "RegionVertex": 0,
+                 "RegionQuadBoundary": 1, "RegionQuadraticQuadBoundary": 2, "RegionBiQuadraticQuadBoundary": 2, "RegionHexahedronBoundary": 1,
+                 "RegionQuadraticHexahedronBoundary": 2, "RegionTriQuadraticHexahedronBoundary": 2}
+
+
 def lab_gl(order, dim, permute):
     return "GaussLegendre(order=%s,dim=%s,permute=%s)" % (order, dim, permute)
 
@@ -55,7 +63,9 @@ def case_family(family):
                             es = np.unique(np.round(el.points[:, 0], 12))
                             rq = np.searchsorted(xs, np.round(a.points, 12))
                             re_ = np.searchsorted(es, np.round(el.points, 12))
-                            ok = rq.shape == re_.shape and np.array_equal(rq, re_)
+                            # the element's own table and, independently of the library, the VTK layout stated in vmon/oracles/cells.py
+                            from ..oracles.cells import vtk_lagrange_grid
+                            ok = rq.shape == re_.shape and np.array_equal(rq, re_) and np.array_equal(rq, vtk_lagrange_grid(order, dim))
                             if ok:
                                 run.ok("scheme.cell-order", unit=lab + ":cell-order", config=(lab, "cell-order"))
                             else:
@@ -124,6 +134,14 @@ def case_family(family):
                             len(q.weights)]
                     else:
                         continue
+                    # the inferred order only labels the exactness test; the order a template must at least come with is
+                    # stated here literally (the documented defaults), so a lower rule under the same template name is seen
+                    base = name.split("(")[0]
+                    need = DEFAULT_ORDER.get(base, (int(name.split("order=")[1][0]) if "order=" in name else None))
+                    if need is not None:
+                        run.compare("scheme.default", "template=%s clause=default-order" % name, float(max(0, need - args["order"])), 0.5,
+                                    "%s: the default quadrature is %s(order=%s), documented is order %s" % (name, cls, args["order"], need),
+                                    unit="default-order", config=("default-order", name))
                     MQ.validate_scheme(run, q, args, label="%s.quadrature=%s(order=%s)" % (name, cls, args["order"]))
                     run.units["default-of-template"] += 1
         finally:
@@ -155,7 +173,7 @@ def _required():
         for c in ("Triangle", "Tetrahedron"):
             req += ["%s(order=%s):exactness" % (c, order), "%s(order=%s):inside" % (c, order),
                     "%s(order=%s):measure" % (c, order)]
-    req += ["BazantOh(n=21):exactness", "BazantOh(n=21):inside", "BazantOh(n=21):measure", "default-of-template", "scheme-attributes", "GaussLegendre.inv"]
+    req += ["BazantOh(n=21):exactness", "BazantOh(n=21):inside", "BazantOh(n=21):measure", "default-of-template", "default-order", "scheme-attributes", "GaussLegendre.inv"]
     return req
 
 
@@ -169,6 +187,6 @@ SPEC = {
              "compares with the closed form; a configuration is distinct by scheme label (class, order, dim, permute) "
              "and non-trivial when all its monomials were integrated"),
     "assumptions": ["closed-form monomial integrals (factorial/Gamma formulas) are the reference",
-                    "table precision: Tetrahedron(order=2) 5e-8, BazantOh 5e-9, all others 1e-12 relative to the measure"],
+                    "table precision: BazantOh 5e-11 (12-digit table, measured 1e-12), all others 1e-12 relative to the measure"],
     "jobs": {"quick": 3, "thorough": 6},
 }
